@@ -536,6 +536,14 @@ func (rpi RetentionPolicyInfo) Clone() *RetentionPolicyInfo {
 			other.MstVersions[k] = *mstv.clone()
 		}
 	}
+	if rpi.Subscriptions != nil {
+		// DropSubscription shifts the elements in place: a copy of the slice header would follow the live catalogue
+		other.Subscriptions = make([]SubscriptionInfo, len(rpi.Subscriptions))
+		for i := range rpi.Subscriptions {
+			other.Subscriptions[i] = rpi.Subscriptions[i]
+			other.Subscriptions[i].Destinations = append([]string(nil), rpi.Subscriptions[i].Destinations...)
+		}
+	}
 	return &other
 }
 
